@@ -53,6 +53,14 @@ type State struct {
 
 var cur *State
 
+var registry = map[string]func(){}
+
+// Register makes a harness function available to the native replay test.
+func Register(name string, f func()) { registry[name] = f }
+
+// Lookup returns a registered harness.
+func Lookup(name string) func() { return registry[name] }
+
 type infeasible struct{}
 
 // Load prepares a native replay from the file named by VERIF_REPLAY.
